@@ -68,7 +68,7 @@ func (x *Exec) envFor(fn *ssa.Function, st *State, old *State, results []Value) 
 	// free variables of closures: by name, current contents of the captured cell
 	for _, fv := range fn.FreeVars {
 		if v, ok := x.regs[fv]; ok {
-			if p, ok := v.(PtrV); ok && p.Kind == PLocal {
+			if _, ok := v.(PtrV); ok { // a local cell, or a heap box for a variable that escapes
 				env.names["&"+fv.Name()] = TV{v, fv.Type()}
 			}
 		}
@@ -701,6 +701,21 @@ func (x *Exec) evalQuant(e *CE, env *Env) TV {
 		n = n.bind(v.Name, TV{val, t})
 	}
 	body := x.evalBool(e.Args[0], n)
+	// a bound string or slice ranges over well-formed sequences only (length and offset not negative):
+	// without this an axiom such as "forall s :: runeCount(s) <= len(s)" is inconsistent at len(s) = -1
+	var wf []*Term
+	for _, v := range e.Vars {
+		if sq, ok := n.names[v.Name].V.(SeqV); ok {
+			wf = append(wf, c.Le(c.Int(0), sq.Len), c.Le(c.Int(0), sq.Off))
+		}
+	}
+	if len(wf) > 0 {
+		if e.Op == "forall" {
+			body = c.Implies(c.And(wf...), body)
+		} else {
+			body = c.And(append(wf, body)...)
+		}
+	}
 	var pats [][]*Term
 	for _, p := range e.Pats {
 		var ts []*Term
